@@ -180,7 +180,8 @@ def gen_config(rng: random.Random, seed_tag: int, force_variant: str | None = No
     """Returns (kw, extra, meta).  `kw` are State constructor arguments."""
     profile = profile or {}
     unit = rng.choice([2, 2, 4, 10])
-    variant = force_variant or rng.choice(list(VARIANTS) + ([] if profile.get('predefined') else ['custom'] * 2))
+    variant = force_variant or rng.choice(profile['variants'] if profile.get('variants') else
+                                          list(VARIANTS) + ([] if profile.get('predefined') else ['custom'] * 2))
     autos, auto_mode = gen_autos(rng)
     if 'autos' in profile:
         autos, auto_mode = profile['autos'], 'forced'
@@ -219,8 +220,14 @@ def gen_config(rng: random.Random, seed_tag: int, force_variant: str | None = No
         n = rng.randint(2, MAX_PLAYERS[variant])
         if rng.random() < 0.5:
             n = min(n, rng.randint(2, 4))
+        if profile.get('max_players'):
+            n = min(n, profile['max_players'])
         antes, ak = gen_antes(rng, n, unit)
         stacks, sk = gen_stacks(rng, n, unit)
+        if profile.get('equal_stacks'):
+            stacks, sk = rng.choice([20, 50, 200]) * unit, 'equal'
+        if profile.get('no_antes') and rng.random() < profile['no_antes']:
+            antes, ak = 0, 'none'
         common = dict(mode=mode, starting_board_count=boards, divmod=dm, rake=rake_f)
         if variant in STUD:
             bring_in = rng.choice([1, max(1, unit // 2)])
